@@ -4,7 +4,7 @@
 use super::common::*;
 use super::text::TOKENIZERS;
 use crate::engine::*;
-use crate::instr::Win;
+use crate::instr::{Ci, Win};
 use crate::oracles::*;
 use crate::spaces::*;
 use serde_json::{json, Value};
@@ -181,6 +181,27 @@ pub fn check_case(old: &[u8], new: &[u8], pad: usize, lcs_too: bool) -> Result<(
                     let r = subject(|| check_config::<[u8]>(t, alg, nl, a.as_bytes(), b.as_bytes()))
                         .map_err(|p| what(format!("[u8]: panic: {}", p)))?
                         .map_err(|e| what(format!("[u8]: {}", e)))?;
+                    fp.add(r.2);
+                    n += 1;
+                    // a caller-side DiffableStr whose equality is not byte equality (ASCII case
+                    // folded): every other ASCII letter of new is upper-cased, so tokens that
+                    // are equal for the type differ in their bytes
+                    let mut up = false;
+                    let b_mixed: Vec<u8> = b
+                        .bytes()
+                        .map(|c| {
+                            if c.is_ascii_lowercase() {
+                                up = !up;
+                                if up {
+                                    return c.to_ascii_uppercase();
+                                }
+                            }
+                            c
+                        })
+                        .collect();
+                    let r = subject(|| check_config::<Ci>(t, alg, nl, Ci::new(a.as_bytes()), Ci::new(&b_mixed)))
+                        .map_err(|p| what(format!("case-insensitive DiffableStr: panic: {}", p)))?
+                        .map_err(|e| what(format!("case-insensitive DiffableStr: {}", e)))?;
                     fp.add(r.2);
                     n += 1;
                 }
